@@ -1,7 +1,8 @@
 /- table of all driver ops; one `*Ops` list per area -/
 import GoNeat.Driver.Genetics
 import GoNeat.Driver.Operators
+import GoNeat.Driver.Population
 
 namespace GoNeat.Driver
-def allOps : List (String × Handler) := geneticsOps ++ operatorOps
+def allOps : List (String × Handler) := geneticsOps ++ operatorOps ++ populationOps
 end GoNeat.Driver
